@@ -70,7 +70,6 @@ func H_C17_identities() {
 		vrtAssume(e != "{x: a}" && e != "[a, b]" && e != "*" && e != "b.*")
 	}
 	vrtNote("template:" + id.lhs + "  ==  " + id.rhs)
-	vrtKnown("C01-F1", knownAdjacentProjection(id.lhs) || knownAdjacentProjection(id.rhs))
 	doc := vrtDoc("d", 3, uJSON, uJSON)
 	if id.cond == "arrayA" {
 		m, ok := doc.(map[string]any)
